@@ -881,6 +881,70 @@ fn run_twin(ctx: &Ctx, id: u64, st: &mut Stats) {
     }
 }
 
+/// SZX twins of a *halted* state: the same state written with the CPU chunk first and with the RAM
+/// pages first, loaded into a fresh machine and into one whose RAM is full of HALT opcodes, must
+/// give machines that behave identically (the statement: chunks in any order, independent of what
+/// the machine was doing before). The program holds one or two HALTs in a row, so a loader that
+/// consults memory to place PC is exposed under either PC convention.
+fn run_halt_twin(ctx: &Ctx, id: u64, st: &mut Stats) {
+    let mut rng = case_rng(ctx, id, 5);
+    let is128 = rng.bool();
+    let mut a = Abs::random(&mut rng, is128);
+    a.latch &= !0x20;
+    let p = install_obs(&mut a, &mut rng, &Obs::Halt, Fmt::Szx);
+    let double = rng.chance(2, 3);
+    if double {
+        a.poke(p.sled.wrapping_add(1), 0x76);
+    }
+    let conv = rng.bool();
+    let mut o = SzxOpts::plain();
+    o.halt_pc_after = conv;
+    let f1 = crate::spec_snap::szx_file(&a, &o, &mut rng);
+    let mut f2 = f1.clone();
+    // RAM pages first, CPU chunk last
+    f2.chunks.sort_by_key(|c| if &c.id == b"RAMP" { 0 } else if &c.id == b"Z80R" { 2 } else { 1 });
+    let (b1, b2) = (f1.to_bytes(), f2.to_bytes());
+    st.cases += 1;
+    st.kind("szx-halted-order-twin");
+    let fl = if is128 { 70908 } else { 69888 };
+    let mk = |dirty: bool| {
+        let (mut m, _) = make_prior(&mut Rng::new(id ^ 0x4417), is128, Prior::Fresh);
+        if dirty {
+            m.poke_bytes(0x4000, &vec![0x76u8; 0xC000]);
+        }
+        m
+    };
+    let mut machines = vec![];
+    for (name, bytes, dirty) in [("cpu-chunk-first/fresh", &b1, false), ("pages-first/fresh", &b2, false), ("cpu-chunk-first/ram-full-of-76", &b1, true), ("pages-first/ram-full-of-76", &b2, true)] {
+        let mut m = mk(dirty);
+        if load(&mut m, Fmt::Szx, bytes).is_err() {
+            return; // reported by the single-file cases
+        }
+        m.set_clock(fl - 40);
+        machines.push((name, m));
+    }
+    for step in 0..40 {
+        let mut regs = vec![];
+        for (_, m) in machines.iter_mut() {
+            m.step();
+            regs.push(m.regs());
+        }
+        st.twin_steps += 4;
+        for k in 1..regs.len() {
+            if reg_items(&regs[0]) != reg_items(&regs[k]) {
+                let d: Vec<String> = reg_items(&regs[0]).iter().zip(reg_items(&regs[k]).iter()).filter(|(x, y)| x != y).map(|(x, y)| format!("{}: {:04x} vs {:04x}", x.0, x.1, y.1)).collect();
+                ctx.violation(
+                    "szx:halted:order-or-prior-dependent",
+                    &format!("the same halted state ({} HALT, PC stored {}) behaves differently when loaded as '{}' and as '{}': {}", if double { "double" } else { "single" }, if conv { "after the HALT" } else { "at the HALT" }, machines[0].0, machines[k].0, d.join(", ")),
+                    jobj! {"case"=>id,"is128"=>is128,"step"=>step,"halt_at"=>p.sled,"double_halt"=>double,"pc_stored_after_halt"=>conv,"first"=>regs_json(&regs[0]),"other"=>regs_json(&regs[k])},
+                );
+                return;
+            }
+        }
+    }
+    st.checks += 40;
+}
+
 // ---------------------------------------------------------------------------------------------- mismatch
 fn run_mismatch(ctx: &Ctx, id: u64, st: &mut Stats) {
     let mut rng = case_rng(ctx, id, 3);
@@ -1032,6 +1096,9 @@ pub fn run(ctx: &Ctx) -> Evidence {
             if id % 97 == 13 {
                 run_ay_retrigger(ctx, id, &mut st);
             }
+            if id % 41 == 7 {
+                run_halt_twin(ctx, id, &mut st);
+            }
             match id % 20 {
                 0 => run_scr(ctx, id, &mut st),
                 1..=3 => run_twin(ctx, id, &mut st),
@@ -1041,7 +1108,7 @@ pub fn run(ctx: &Ctx) -> Evidence {
         }
         st
     });
-    let mut ev = Evidence::new("files written by independent SNA/SZX/SCR writers from generated abstract states, loaded into emulators in hostile prior states; every register, IFF, IM, border, latch+lock, every RAM byte (hook and CPU view), ROM selection compared; one behavioural observation per case (interrupt acceptance / EI-pending / HALTED under both PC conventions / canvas / AY read-back + audible state / mouse presence); SNA-vs-SZX twins single-stepped 200 instructions; model-mismatch files must give Err or a correct layout. distinct = distinct (state, prior, observation) fingerprints");
+    let mut ev = Evidence::new("files written by independent SNA/SZX/SCR writers from generated abstract states, loaded into emulators in hostile prior states; every register, IFF, IM, border, latch+lock, every RAM byte (hook and CPU view), ROM selection compared; one behavioural observation per case (interrupt acceptance / EI-pending / HALTED under both PC conventions / canvas / AY read-back + audible state / mouse presence); SNA-vs-SZX twins single-stepped 200 instructions; halted SZX states (single/double HALT, both PC conventions) loaded chunk-order x prior-RAM four ways and stepped in lockstep across an interrupt; model-mismatch files must give Err or a correct layout. distinct = distinct (state, prior, observation) fingerprints");
     let mut all = Stats::default();
     for r in res {
         all.cases += r.cases;
